@@ -14,3 +14,4 @@ pub mod report;
 pub mod rng;
 pub mod seqmon;
 pub mod src;
+pub mod vbin;
